@@ -11,7 +11,7 @@ from vlib import core
 REPO_SOURCES = ["src/Algorithms/DirectSearch/CMA.cpp", "src/Algorithms/DirectSearch/CMSA.cpp",
                 "src/Algorithms/DirectSearch/ElitistCMA.cpp", "src/Algorithms/DirectSearch/CrossEntropyMethod.cpp",
                 "src/Core/Random.cpp"]
-LAKE_TARGETS = ["SharkVerif.Props.C11", "drv_c11"]
+LAKE_TARGETS = ["SharkVerif.Props.C11", "SharkVerif.Lemmas.CMACov", "drv_c11"]
 
 TRUST = ("Lean 4.33 kernel; axioms at most propext/Classical.choice/Quot.sound (audited per run); strategy-parameter formulas regenerated from the C++ "
          "by translate/cma_params.py (T0), update rules hand-modelled and tied to the C++ by the correspondence harness (differential, generator-bounded); ")
@@ -721,9 +721,9 @@ def run(ctx):
                         "log strictly increasing on the positive rationals (weights), sqrt positive on positives (Cholesky update, CMSA c_sigma), pow non-negative (ElitistCMA unlearning rate)",
                         "covariance theorem over the reals (Mathlib), not over floating point"]
     translate(ctx)
-    ctx.prove(["SharkVerif.Props.C11"])
+    ctx.prove(["SharkVerif.Props.C11", "SharkVerif.Lemmas.CMACov"])
     if not ctx.quick:
-        ctx.leanchecker(["SharkVerif.Props.C11"])
+        ctx.leanchecker(["SharkVerif.Props.C11", "SharkVerif.Lemmas.CMACov"])
     exe = build(ctx)
     drv = ctx.driver("drv_c11")
     if not exe or not drv:
